@@ -14,7 +14,7 @@ for pid in sorted(D.CHECKS):
         "evidence_file": "/verif/evidence/%s.json" % pid,
         "replay_cmd_template": "./check --replay {path}",
         "engine": "mc",
-        "level_claimed": {"category": c["level"], "text": c["text"], "design_ref": c.get("ref", "DESIGN.md section 6 " + pid)},
+        "level_claimed": {"category": c["level"], "text": c["text"] + getattr(D, "ADDENDA", {}).get(pid, ""), "design_ref": c.get("ref", "DESIGN.md section 6 " + pid)},
         "level_note": c["note"],
         "technique": c["technique"],
     })
